@@ -13,7 +13,7 @@ EXPLANATION = (
     'AX(:,i) - value(i) * BX(:,i) for all i < k after the last change of X / AX / BX / values (no other writer of the residuals '
     'lies between the recomputation and the test); the constructor starts with a non-success status; every Rayleigh-Ritz solve is '
     'followed by the ascending (SmallestAlge) sort of the pairs before they are used; the convergence test counts a column as '
-    'converged only if sqrt(sum of squares) < tolerance. Every path through compute() assigns the status (the status at exit belongs to this call); the convergence function changes its count only under the norm criterion and reads no mutable solver field. Does NOT decide accuracy, B-orthonormality levels, or that the k smallest '
+    'converged only if sqrt(sum of squares) < tolerance. Every path through compute() assigns the status (the status at exit belongs to this call); the convergence function changes its count only under the norm criterion and reads no mutable solver field. (D3) the factors of a sparse decomposition are read only with the natural ordering or with its permutation; (D4) Success is assigned only under a test of Xt B X against the identity. Does NOT decide accuracy, B-orthonormality levels, or that the k smallest '
     'eigenvalues are found.')
 ASSUMPTIONS = ['Eigen sparse products are exact up to rounding']
 
@@ -132,8 +132,8 @@ def success_discipline(ctx, X, RES, rule='success-only-after-fresh-residual-test
     info = infos[0]
     succ = [x for x in comp.walk() if x['k'] in ('BinaryOperator', 'CXXOperatorCallExpr') and x.get('op') == '=' and
             sym(comp, x, inline=False)[1] == ('F', info) and show(sym(comp, x, inline=False)[2]) == 'Success']
-    if len(succ) < 2:
-        raise AnalysisBroken('LOBPCG: %d success assignments (2 confirmed by hand)' % len(succ))
+    if len(succ) < 1:
+        raise AnalysisBroken('LOBPCG: %d success assignments (1 confirmed by hand since the verdict was moved behind the loop; 2 before)' % len(succ))
     # recomputation loops: for i < nev: RES.col(i) = AX.col(i) - values(i) * BX.col(i)
     recomputes = []
     for lp in comp.walk():
@@ -219,6 +219,12 @@ def success_discipline(ctx, X, RES, rule='success-only-after-fresh-residual-test
             problems.append('Success is assigned unconditionally')
         else:
             c = sym(comp, guard['cond'], inline=False)
+            # a conjunction may add further requirements to the residual test (e.g. the orthonormality of the iterate)
+            conj = [c]
+            while any(x_[0] == '&&' for x_ in conj):
+                conj = [y_ for x_ in conj for y_ in (x_[1:] if x_[0] == '&&' else [x_])]
+            hits_ = [x_ for x_ in conj if x_[0] == '==' and ('lit', '0') in x_ and any(isinstance(a, tuple) and a[0] == 'L' for a in x_[1:])]
+            c = hits_[0] if hits_ else c
             if not (c[0] == '==' and ('lit', '0') in c and any(isinstance(a, tuple) and a[0] == 'L' for a in c[1:])):
                 problems.append('Success is assigned under `%s`, not under block size == 0' % comp.s(guard['cond']))
             else:
@@ -368,3 +374,86 @@ def success_discipline(ctx, X, RES, rule='success-only-after-fresh-residual-test
 def run(ctx):
     X, RES = returned_objects(ctx)
     success_discipline(ctx, X, RES)
+    factor_accessors_match_ordering(ctx)
+    success_requires_orthonormal_iterate(ctx, X)
+
+
+def factor_accessors_match_ordering(ctx, rule='sparse-factors-used-with-their-ordering'):
+    """Eigen's Simplicial* decompositions factorize P A P' with a fill-reducing permutation P (AMD by default).  matrixU(),
+    matrixL() and vectorD() are the factors of the PERMUTED matrix: a consumer that uses them as factors of A itself must either
+    apply permutationP() / permutationPinv() or request the natural ordering.  AMD returns the identity for a structurally dense
+    Gram matrix, which hides the omission for dense start blocks; for a sparse block M, M'BM has structural zeros and the
+    B-orthonormalisation silently returns a non-orthonormal block (|X'X - I| = 0.65 after the first call)."""
+    n = 0
+    seen = set()
+    for fn in ctx.F.concrete():
+        if fn.cls != 'Spectra::LOBPCGSolver' or not fn.cfg or fn.name in seen:
+            continue
+        decs = {v: l for v, l in fn.locals.items() if l['type'].startswith(('Eigen::SimplicialLDLT', 'Eigen::SimplicialLLT', 'Eigen::SimplicialCholesky'))}
+        if not decs:
+            continue
+        seen.add(fn.name)
+        for v, l in decs.items():
+            calls = {}
+            for x in fn.walk():
+                if x['k'] == 'CXXMemberCallExpr' and x.get('callee') in ('matrixU', 'matrixL', 'vectorD', 'permutationP', 'permutationPinv'):
+                    obj = [y for y in fn.walk(x) if y['k'] == 'DeclRefExpr' and y.get('var') == v]
+                    if obj:
+                        calls.setdefault(x['callee'], []).append(x)
+            raw = [c for c in ('matrixU', 'matrixL', 'vectorD') if c in calls]
+            if not raw:
+                continue
+            n += 1
+            natural = 'NaturalOrdering' in l['type']
+            permuted = 'permutationP' in calls or 'permutationPinv' in calls
+            ok = natural or permuted
+            ctx.check(ok, rule, 'LOBPCGSolver::%s/%s' % (fn.name, l['name']), fn.qname,
+                      '%s of %s are used %s' % (', '.join(raw), l['name'], 'with the natural ordering requested in the type' if natural else 'together with its permutation') if ok else
+                      '%s of `%s` (%s: fill-reducing ordering) are used as factors of the matrix itself, its permutation is never applied: for a Gram matrix with structural zeros '
+                      '(sparse start block) the block is not B-orthonormal afterwards and Success is reported with spurious eigenvalues' % (', '.join(raw), l['name'], l['type'].split('<')[0]))
+    if n < 1:
+        raise AnalysisBroken('no sparse decomposition whose factors are read found in LOBPCGSolver (orthogonalizeInPlace confirmed)')
+
+
+def success_requires_orthonormal_iterate(ctx, X, rule='success-requires-a-b-orthonormal-iterate'):
+    """The residual test is built on the columns of X as they are: X is updated by the Rayleigh-Ritz coefficients and never
+    orthonormalised again, the Gram matrix assumes identity blocks, the Cholesky status of the small problem is not looked at.
+    With an ill-conditioned basis [X R D] the columns of X lose their norm (to 2e-4, 6e-10, exactly 0): a zero column has a zero
+    residual and `Success` is reported with eigenvalues 0 for a positive definite matrix.  Every assignment of Success must be
+    control dependent on a test of X'(BX) against the identity (directly or through a member whose returned value is such a test)."""
+    M = _cls(ctx)
+    comp = M['compute']
+    succ = [x for x in comp.walk() if x['k'] in ('BinaryOperator', 'CXXOperatorCallExpr') and x.get('op') == '=' and
+            sym(comp, x, inline=False)[1] == ('F', 'm_info') and 'Success' in show(sym(comp, x, inline=False)[2]) and 'info(' not in show(sym(comp, x, inline=False)[2])]
+    if not succ:
+        raise AnalysisBroken('no assignment of Success in LOBPCGSolver::compute')
+
+    def is_gram_test(t):
+        s_ = show(t)
+        return 'transpose(' in s_ and 'Identity' in s_ and any(op in s_ for op in ('<=', '<')) and '*' in s_
+
+    for a in succ:
+        ifs = [i for i in comp.ancestors(a) if i['k'] == 'IfStmt' and comp.within(a, i['then'])]
+        conds = [sym(comp, i['cond']) for i in ifs]
+        ok = any(is_gram_test(c) for c in conds)
+        # the test must be about the iterate block and its B-image
+        names = ' '.join(show(c) for c in conds)
+        ok = ok and any(x_ in names for x_ in X)
+        if not ok:
+            # ... or a member whose returned value is such a test of its first two arguments, called on the iterate block
+            for i in ifs:
+                for call in comp.walk(i['cond']):
+                    if call['k'] != 'CXXMemberCallExpr' or call.get('cls') != 'Spectra::LOBPCGSolver':
+                        continue
+                    h = M.get(call.get('callee'))
+                    if h is None or not h.cfg:
+                        continue
+                    rets = [sym(h, r['value']) for r in h.walk() if r['k'] == 'ReturnStmt']
+                    pn = [h.locals[v]['name'] for v in h.params]
+                    args = [show(sym(comp, x_, inline=False)) for x_ in comp.call_args(call)]
+                    if rets and all(is_gram_test(r) and all(p_ in show(r) for p_ in pn[:2]) for r in rets) and any(x_ in args for x_ in X):
+                        ok = True
+        ctx.check(ok, rule, 'LOBPCGSolver::compute@%s' % comp.loc(a), comp.qname,
+                  'Success is assigned only under `%s`' % ' && '.join(show(sym(comp, i['cond'], inline=False)) for i in comp.ancestors(a) if i['k'] == 'IfStmt')[:160] if ok else
+                  'Success is assigned under %s only: nothing ties the verdict to the norm of the columns of the iterate, a column that collapsed to zero passes the residual test' %
+                  ([show(sym(comp, i['cond'], inline=False)) for i in comp.ancestors(a) if i['k'] == 'IfStmt'] or 'no test'))
